@@ -25,7 +25,10 @@ def observe(obs, nset):
     cls = tuple(models.classify_probe(i, hexec.Asm(o).hex if hexec.Asm(o).ret == 0 else "fail")
                 for i, o in enumerate(pr[-4:]))
     s = [o for o in obs if o.startswith("S:")]
-    opt = int(s[-1].split(":")[6]) if s else None
+    try:
+        opt = int(s[-1].split(":")[6]) if s else None
+    except (IndexError, ValueError):
+        opt = None          # struct dump unavailable on this tree (internal refactoring): the probes alone identify the state
     return cls, opt
 
 
